@@ -45,6 +45,7 @@ import YtkProofs.FuncsLemmas
 import YtkProofs.GapPipelineData
 import YtkProofs.GapPipelinePatch
 import YtkProofs.GapPatchFrame
+import YtkProofs.TplFuncs
 
 namespace Ytk.C13
 
@@ -1794,4 +1795,144 @@ theorem nonEmpty_generated_eq_model (p : Option String) :
         omega
     simp [Funcs.nonEmpty, Go.deref, this]
 
+end Ytk.C13
+
+/-! ## the template functions (pipeline/template_engine_funcs.go; model YtkModel/TplFuncs.lean) -/
+namespace Ytk.C13
+section tplfuncs
+open Ytk.TplFuncs
+
+/-- isEmpty by kind of value: true exactly for the untyped nil (a missing key), a stored nil and the empty
+    string — false for every other scalar (0, false, " " included), every list and every map, empty or not. -/
+theorem tf_isEmpty_by_kind (v : Option Val) :
+    TplFuncs.isEmpty v = true ↔
+      v = none ∨ ∃ s, v = some (.sc s) ∧ (s.ty = "nil" ∨ (s.ty = "string" ∧ s.text = "")) :=
+  isEmpty_iff v
+
+theorem nonvacuous_tf_isEmpty :
+    TplFuncs.isEmpty none = true ∧ TplFuncs.isEmpty (some Val.null) = true ∧
+    TplFuncs.isEmpty (some (.sc ⟨"string", ""⟩)) = true ∧ TplFuncs.isEmpty (some (.sc ⟨"string", " "⟩)) = false ∧
+    TplFuncs.isEmpty (some (.sc ⟨"int", "0"⟩)) = false ∧ TplFuncs.isEmpty (some (.sc ⟨"bool", "false"⟩)) = false ∧
+    TplFuncs.isEmpty (some (.arr [])) = false ∧ TplFuncs.isEmpty (some (.obj [])) = false := by decide
+
+/-- unflatten IS utils.Unflatten as modelled for C16, so C16's theorem applies: flattening the result of a
+    prefix-free flat map of scalars gives the flat map back. -/
+theorem tf_unflatten_c16 (kv : AMap Scalar) (hs : AMap.Sorted kv) (hpf : Props.PrefixFree kv)
+    (hne : Props.SegsNonempty kv) :
+    unflattenFn = Props.unflatten ∧ Props.flattenPlainMap (unflattenFn (Props.toV kv)) = kv :=
+  ⟨rfl, Props.flattenPlainMap_unflatten hs hpf hne⟩
+
+/-- mergeFiles of distinct files that all load = the LEFT FOLD of Merge with appended lists over the loaded
+    documents, in the order given (so C04's laws hold per step: a later file wins unless its value is null). -/
+theorem tf_mergeFiles_fold {Γ : Type} (fl : Files Γ) (fds : List (String × AMap Node))
+    (hnd : (fds.map (·.1)).Nodup) (hload : ∀ p ∈ fds, loadFile fl p.1 = .ok p.2) :
+    mergeFiles fl (fds.map (·.1)) = .ok ((fds.map (·.2)).foldl (mergeC .append) []) :=
+  mergeFiles_fold fl fds hnd hload
+
+/-- mergeFiles [f] is the parsed file; mergeFiles [] the empty document -/
+theorem tf_mergeFiles_single {Γ : Type} (fl : Files Γ) (f : String) (d : AMap Node) (h : loadFile fl f = .ok d) :
+    mergeFiles fl [f] = .ok d ∧ mergeFiles fl [] = .ok [] := by
+  have := mergeFiles_fold fl [(f, d)] (by simp) (by simpa using h)
+  refine ⟨?_, rfl⟩
+  rw [show [f] = [(f, d)].map (·.1) from rfl, this]
+  simp only [List.map_cons, List.map_nil, List.foldl_cons, List.foldl_nil]
+  exact congrArg _ (mergeKvs_nil_left .append (loadFile_valid fl f d h).1.sorted)
+
+/-- a file that cannot be opened or decoded makes the whole call fail (no partial result); an unrecognised suffix
+    on a readable file is the call of a nil decoder — a panic, which text/template reports as an error -/
+theorem tf_mergeFiles_first_failure {Γ : Type} (fl : Files Γ) (f : String) (rest : List String) :
+    (loadFile fl f = .err → mergeFiles fl (f :: rest) = .err) ∧
+    (loadFile fl f = .panic → mergeFiles fl (f :: rest) = .panic) ∧
+    (∀ c, fl.open_ f = some c → FileCodec.ofSuffix (fl.ext f) = none → loadFile fl f = .panic) := by
+  refine ⟨fun h => by simp [mergeFiles, addFiles, h], fun h => by simp [mergeFiles, addFiles, h], ?_⟩
+  intro c ho hs
+  simp [loadFile, ho, hs]
+
+/-- domdiff x x = [] (C07's `diff_self`), and anything but two containers gives the empty list -/
+theorem tf_domDiff_self (l : AMap Node) (hl : (Node.cont l).Valid) :
+    domDiff (some (.cont l)) (some (.cont l)) = [] := by
+  simp only [domDiff, diff, emit, emitNode_self _ "" hl]; rfl
+
+theorem tf_domDiff_spec (l r : Option Node) :
+    domDiff l r = match l, r with
+      | some (.cont a), some (.cont b) => diff a b
+      | _, _ => [] := by
+  unfold domDiff; split <;> simp_all
+
+theorem tf_domDiff_non_container (l r : Option Node)
+    (h : (∀ a, l ≠ some (.cont a)) ∨ (∀ b, r ≠ some (.cont b))) : domDiff l r = [] := by
+  unfold domDiff
+  split
+  · rename_i a b
+    rcases h with h | h
+    · exact absurd rfl (h a)
+    · exact absurd rfl (h b)
+  · rfl
+
+/-- dom2yaml / dom2json / dom2properties hand AsMap of the container to the format's encoder (C01's Serialize);
+    under the codec contract (the decoder inverts the encoder on every value) parsing the text gives the document back. -/
+theorem tf_dom2_parse_identity (e : Encoders) (dec : String → Option (List (String × Val)))
+    (c : AMap Node) (hv : (Node.cont c).Valid) :
+    dom2yaml e c = e.yaml (asMap c) ∧ dom2json e c = e.json (asMap c) ∧ dom2properties e c = e.props (asMap c) ∧
+    ((∀ v, (e.json v).2 = false ∧ dec (e.json v).1 = some v) →
+      (dom2json e c).2 = false ∧ (dec (dom2json e c).1).map fromMap = some c) ∧
+    ((∀ v, (e.yaml v).2 = false ∧ dec (e.yaml v).1 = some v) →
+      (dom2yaml e c).2 = false ∧ (dec (dom2yaml e c).1).map fromMap = some c) :=
+  ⟨rfl, rfl, rfl, fun h => dom2str_parse e.json dec h c hv, fun h => dom2str_parse e.yaml dec h c hv⟩
+
+/-- fileExists / isDir: every error of os.Stat means false; a directory exists -/
+theorem tf_stat_spec (os : OS) (f : String) :
+    (os.stat f = none → fileExists os f = false ∧ isDir os f = false) ∧
+    (∀ d, os.stat f = some d → fileExists os f = true ∧ isDir os f = d) ∧
+    (isDir os f = true → fileExists os f = true) := by
+  refine ⟨fun h => by simp [fileExists, isDir, h], fun d h => by simp [fileExists, isDir, h], ?_⟩
+  unfold isDir fileExists
+  cases os.stat f <;> simp
+
+/-- toYaml returns the encoder's text without its final newline, and the encoder's error -/
+theorem tf_toYaml_trim {α : Type} (enc : α → String × Bool) (v : α) (s : String) (e : Bool)
+    (h : enc v = (s ++ "\n", e)) : toYaml enc v = (s, e) := by
+  simp only [toYaml, h, trimSuffixNl, String.toList_append, List.reverse_append]
+  simp [String.ofList_toList]
+
+/-- TemplateOp over an action calling the functions: the action's text is stored as a string leaf at the path
+    (`template_stores_text` with the functions' renderer); an action that fails makes the operation fail. -/
+theorem tf_templateOp_stores {Γ : Type} (env : Env Γ) (c : Call) (tmpl path : String) (trimFn : String → String)
+    (yp : String → Option (Option PD.YNode)) (data : AMap Node) (text : String)
+    (ht : tmpl ≠ "") (hp : path ≠ "") (hr : render env (asMap data) c = some text) :
+    (templateOpCall env c tmpl path none false trimFn yp data).2 = false ∧
+    lookup (templateOpCall env c tmpl path none false trimFn yp data).1 path = some (.leaf ⟨"string", text⟩) := by
+  have := template_stores_text (fun _ => render env (asMap data) c) id trimFn yp ⟨tmpl, path, none, false⟩ data text
+    ht hp (Or.inl rfl) hr hp
+  simpa [templateOpCall] using this
+
+theorem tf_templateOp_fails {Γ : Type} (env : Env Γ) (c : Call) (tmpl path : String) (trimFn : String → String)
+    (yp : String → Option (Option PD.YNode)) (data : AMap Node)
+    (ht : tmpl ≠ "") (hp : path ≠ "") (hr : render env (asMap data) c = none) :
+    (templateOpCall env c tmpl path none false trimFn yp data).2 = true := by
+  simp [templateOpCall, PD.templateOp, ht, hp, hr]
+
+/-- the isEmpty action renders `true` / `false` by the kind table above -/
+theorem tf_render_isEmpty {Γ : Type} (env : Env Γ) (snap : AMap Val) (k : String) :
+    render env snap (.isEmpty k) = some (if TplFuncs.isEmpty (AMap.get? snap k) then "true" else "false") := rfl
+
+def exFiles : Files String :=
+  { ext := fun f => if f = "a.yaml" then ".yaml" else if f = "b.json" then ".json" else ".txt"
+    open_ := fun f => if f = "gone.yaml" then none else some f
+    decode := fun _ c =>
+      if c = "a.yaml" then some [("l", .arr [.sc ⟨"int", "1"⟩]), ("x", .sc ⟨"int", "1"⟩), ("y", .sc ⟨"string", "keep"⟩)]
+      else if c = "b.json" then some [("l", .arr [.sc ⟨"int", "2"⟩]), ("x", .sc ⟨"int", "2"⟩), ("y", Val.null)]
+      else none }
+
+/-- concrete: two files (lists appended, later scalar wins, null keeps the earlier value); a file named twice is
+    merged ONCE, at its first position (the document set keys documents by file name); failures -/
+theorem nonvacuous_tf_mergeFiles :
+    mergeFiles exFiles ["a.yaml", "b.json"] =
+      .ok [("l", .list [.leaf ⟨"int", "1"⟩, .leaf ⟨"int", "2"⟩]), ("x", .leaf ⟨"int", "2"⟩), ("y", .leaf ⟨"string", "keep"⟩)] ∧
+    mergeFiles exFiles ["a.yaml", "b.json", "a.yaml"] = mergeFiles exFiles ["a.yaml", "b.json"] ∧
+    mergeFiles exFiles ["a.yaml", "gone.yaml"] = .err ∧ mergeFiles exFiles ["a.yaml", "c.txt"] = .panic ∧
+    domDiff (some (.cont [("x", .leaf ⟨"int", "1"⟩)])) (some (.cont [("x", .leaf ⟨"int", "2"⟩)])) =
+      [Mod.mkChange "x" ⟨"int", "2"⟩ ⟨"int", "1"⟩] := by decide +kernel
+
+end tplfuncs
 end Ytk.C13
